@@ -4,7 +4,7 @@
    operations (evaluation history: they fill the operation cache), a query and
    its observed result.  Used by C02, C10, C15, C16, C17. *)
 From QV Require Import Model.Num Model.Rounding Model.Quantity Model.Dim Model.Registry
-     Corr.Common Corr.Obs.
+     Model.Rates Model.RegRates Corr.Common Corr.Obs.
 
 Inductive mop :=
   | OMul (x y : mopd)
@@ -14,7 +14,10 @@ Inductive mop :=
 Inductive query :=
   | QOp (o : mop)
   | QDir (syms : list N) (clss : list N)          (* Unit(sym) for each, cls.units() for each *)
-  | QMk (a : Q) (u : N) (via : option N).         (* Quantity(a, u) / cls(a, u) *)
+  | QMk (a : Q) (u : N) (via : option N)          (* Quantity(a, u) / cls(a, u) *)
+  (* (a * u) * rate / rate * (a * u) (mul) or (a * u) / rate, the rate being
+     ExchangeRate(ru, mult, rt, amt) *)
+  | QRate (mul : bool) (a : Q) (u : N) (ru : N) (mult : Q) (rt : N) (amt : Q).
 
 Inductive robs :=
   | RO (o : obs)
@@ -82,6 +85,15 @@ Definition reg_model (pre : state) (c : rcase) : list (option err) * robs :=
   (es ++ es2, match k_query c with
        | QOp o => obs_mres (snd (run_mop dm s' o))
        | QDir syms clss => RDir (map (obs_symbol s') syms) (map (obs_units s') clss)
+       | QRate mul a u ru mult rt amt =>
+           match mk_rate dm ru mult rt amt with
+           | Err e => RO (OErr e)
+           | Ok r =>
+               let a' := match find_unit s' u with
+                         | Some x => q_amt (mk_qty dm a (view s' x))
+                         | None => a end in
+               obs_mres (apply_rate s' dm mul a' u r)
+           end
        | QMk a u via =>
            match find_unit s' u with
            | None => RO (OErr EOther)
